@@ -33,13 +33,14 @@ EXTENDS Naturals, Integers, Sequences, FiniteSets, TLC, Json, IOUtils
 
 CONSTANTS Source,      \* "enum" | "file"
           Kinds, Fmts, Ks, Indents, BlankCounts, Seps,   \* enumeration bounds (cfg); Seps: subset of {"none", "ls", "nel"}
+          InlineMovesOrigin,   \* TRUE while the tree has the deviation (known finding ivar-inline-docstring-line): see ReportedLine
           LeadingWsKept,       \* TRUE while the tree has the deviation (known finding leading-ws-line-shift): see CleanLead
           RstLineNotConverted  \* TRUE while the tree has the deviation (known finding rst-markup-line-off-by-one); FALSE once
                                \* proposed_fixes/C16-rst-markup-line-off-by-one.diff is applied, so that model drift stays 0
 
 AllKinds == {"module", "class", "function", "method", "attribute"}
 AllFmts  == {"epytext", "restructuredtext", "google", "numpy"}
-Probs    == {"xref", "markup", "unkfield", "param", "tfield"}
+Probs    == {"xref", "markup", "unkfield", "param", "tfield", "vfield", "consbad"}
 Poss     == {"p1", "p2l2", "item", "field", "own"}
 
 \* ------------------------------------------------------------------ layouts
@@ -61,7 +62,21 @@ WellFormed(l) ==
     \* cons: reST CONSOLIDATED field, definition-list form (":Parameters:" / "    name" / "        description"): every item is a
     \* field of its own, located by the line of its term (restructuredtext.py handle_consolidated_definition_list)
     /\ (l.cons => l.fmt = "restructuredtext" /\ l.prob = "param" /\ ~l.raw /\ l.k = 0 /\ ~l.longws /\ l.lead = "none" /\ l.sep = "none")
-    \* tfield (run with --process-types): the docstring of a class / module documents an attribute y with an "ivar" field and
+    \* vfield: an unresolvable link in the body of the "ivar" / "var" field that documents the attribute y of the class / module.
+    \* ann: the class / module also has a callable with ANNOTATIONS (def alpha(x: int) -> str), rendered before the attribute
+    \* through the annotation linker, which switches the context of the scope's own linker and back
+    /\ (l.prob = "vfield" => l.fmt \in {"epytext", "restructuredtext"} /\ l.kind \in {"class", "module"} /\ ~l.raw /\ l.k = 0
+                              /\ ~l.longws /\ l.lead = "none" /\ l.sep = "none" /\ ~l.cons)
+    /\ (l.ann => l.prob = "vfield")
+    \* inl: the attribute documented by the ivar field ALSO has a docstring of its own after its assignment; pydoctor keeps
+    \* the field, says so ("Docstring ignored: ..", at the line of that string) - one more message, about that line
+    /\ (l.inl => l.prob = "vfield" /\ ~l.ann)
+    \* pt: the layout is run with --process-types (type fields only: the type text is then a bare name, else a link)
+    /\ (l.pt => l.prob = "tfield")
+    \* consbad: a reST consolidated field that is neither a bullet list nor a definition list (":Parameters: a b c"): the
+    \* markup problem "Unable to split consolidated field" (restructuredtext.py visit_field)
+    /\ (l.prob = "consbad" => l.fmt = "restructuredtext" /\ ~l.raw /\ l.k = 0 /\ ~l.longws /\ l.lead = "none" /\ l.sep = "none" /\ ~l.cons)
+    \* tfield: the docstring of a class / module documents an attribute y with an "ivar" field and
     \* gives its type in a "type" field whose text is an unresolvable name
     /\ (l.prob = "tfield" => l.fmt \in {"epytext", "restructuredtext"} /\ l.kind \in {"class", "module"} /\ ~l.raw /\ l.k = 0
                               /\ ~l.longws /\ l.lead = "none" /\ l.sep = "none" /\ ~l.cons)
@@ -71,7 +86,7 @@ WellFormed(l) ==
 
 Layouts == {l \in [kind : Kinds, fmt : Fmts, prob : Probs, pos : Poss, open : BOOLEAN,
                    blanks : BlankCounts, indent : Indents, raw : BOOLEAN, k : Ks, typed : BOOLEAN, longws : BOOLEAN,
-                   lead : {"none", "title"}, tight : BOOLEAN, sep : Seps, cons : BOOLEAN] : WellFormed(l)}
+                   lead : {"none", "title"}, tight : BOOLEAN, sep : Seps, cons : BOOLEAN, pt : BOOLEAN, ann : BOOLEAN, inl : BOOLEAN] : WellFormed(l)}
 
 \* OBS_FILE: {"obs": [[id, lay, lines] ...], "groups": [[index into obs ...] ...]}  (groups: same layout up to k)
 ObsFile  == IF Source = "file" THEN JsonDeserialize(IOEnv.OBS_FILE) ELSE [obs |-> <<>>, groups |-> <<>>]
@@ -112,6 +127,8 @@ Mark0(l) ==
                              [] l.fmt = "numpy"  -> [first |-> 9, at |-> 12])                             \* Note / ---- / body / body
     [] l.pos = "own" ->
          (CASE l.prob = "tfield" -> [first |-> 12, at |-> 12]     \* :note: (9-10)  ivar y (11)  type y (12)
+            [] l.prob = "consbad" -> [first |-> 11, at |-> 11]   \* :note: (9-10)  :Parameters: a b c (11)
+            [] l.prob = "vfield" -> [first |-> 11, at |-> 11]     \* :note: (9-10)  ivar y (11): the link is in its body
             [] l.cons -> [first |-> 14, at |-> 14]                \* :note: (9-10)  :Parameters:  a  the arg  nosuch  text
             [] l.fmt \in {"epytext", "restructuredtext"} -> [first |-> 11, at |-> 11]
             [] l.fmt \in {"google", "numpy"} /\ l.prob = "unkfield" -> [first |-> 9, at |-> 9]  \* ':unknownfield: text' + blank before Note
@@ -126,6 +143,8 @@ DocLen0(l) ==
   LET shift == IF l.prob = "unkfield" /\ l.fmt \in {"google", "numpy"} THEN 2 ELSE 0 IN
   CASE l.cons -> 16
     [] l.prob = "tfield" -> 13
+    [] l.prob = "vfield" -> 12
+    [] l.prob = "consbad" -> 12
     [] l.fmt \in {"epytext", "restructuredtext"} -> IF l.pos = "own" THEN 12 ELSE 11
     [] l.fmt = "google" -> shift + 12 + (IF l.typed THEN 6 ELSE IF HasArgs(l) THEN 3 + (IF l.prob = "param" THEN 1 ELSE 0) ELSE 0)
     [] l.fmt = "numpy"  -> shift + 13 + (IF l.typed THEN 11 ELSE IF HasArgs(l) THEN 5 + (IF l.prob = "param" THEN 2 ELSE 0) ELSE 0)
@@ -140,8 +159,10 @@ AtLine(l)    == TextLine0(l) + Mark(l).at
 \* Reading (notes/C16.md): a report that is *more* precise - any line from the first line of the construct down
 \* to the line of the problem itself - still "points at the right place"; nothing outside that range does.
 \* google / numpy (converted before parsing): some line of that docstring.
-Acceptable(l) == IF l.fmt \in {"epytext", "restructuredtext"} THEN FirstLine(l)..AtLine(l)
-                 ELSE QuoteLine(l)..CloseLine(l)
+\* (inl) the attribute's own docstring: "y = 1" follows the closing quotes, the string follows it
+InlineLine(l) == IF l.inl THEN CloseLine(l) + 2 ELSE 0
+Acceptable(l) == (IF l.fmt \in {"epytext", "restructuredtext"} THEN FirstLine(l)..AtLine(l)
+                  ELSE QuoteLine(l)..CloseLine(l)) \cup (IF l.inl THEN {InlineLine(l)} ELSE {})
 
 \* ------------------------------------------------------------------ what pydoctor computes
 \* value of the string constant up to its first non-blank character, as character classes
@@ -199,18 +220,28 @@ Offset(l) ==
     \* restructuredtext.py:187-191  linenum = error.get('line'); ParseError(msg, linenum, ..): the 1-based docutils
     \* line is stored where a 0-based one is expected                                          (deviation RstLineNotConverted)
     [] l.prob = "markup" /\ RstFamily(l)       -> ReportErrorsOffset(ParserFirst(l) + (IF RstLineNotConverted THEN 1 ELSE 0))
+    \* restructuredtext.py:~262  ParseError(estr, node.line, is_fatal=False): the 1-based docutils line of the field stored where
+    \* a 0-based one is expected: one line too low (deviation; pinned by pydoctor/test/epydoc/restructuredtext.doctest)
+    [] l.prob = "consbad"                       -> ReportErrorsOffset(ParserFirst(l) + 1)
     [] l.prob = "xref" /\ l.fmt = "epytext"    -> ParserFirst(l)                               \* epytext.py to_node: lineno attr of the link = startline
     [] l.prob = "xref" /\ RstFamily(l)         -> ParserAt(l)                                  \* epydoc/docutils.py:108-146 get_lineno
-    [] l.prob \in {"unkfield", "param", "tfield"} /\ l.fmt = "epytext" -> ParserFirst(l)                \* Field(.., lineno) ; Field.report
-    [] l.prob \in {"unkfield", "param", "tfield"} /\ RstFamily(l)      -> (ParserFirst(l) + 1) - 1      \* restructuredtext.py:282 node.line - 1
+    \* (vfield: reported against the attribute: docstring_lineno(attribute) = docstring line of the parent + line of the
+    \* field (extract_fields), the link sits on the first line of the field body: offset 0 from there)
+    [] l.prob \in {"unkfield", "param", "tfield", "vfield"} /\ l.fmt = "epytext" -> ParserFirst(l)                \* Field(.., lineno) ; Field.report
+    [] l.prob \in {"unkfield", "param", "tfield", "vfield"} /\ RstFamily(l)      -> (ParserFirst(l) + 1) - 1      \* restructuredtext.py:282 node.line - 1
 \* model.py:403-408   linenumber = self.docstring_lineno or self.linenumber ; linenumber += lineno_offset
 \* tfield: the unresolvable type is reported a SECOND time when the attribute itself is rendered: against the attribute, whose
 \* docstring_lineno is already the line of its ivar field (extract_fields: obj.docstring_lineno + field.lineno), plus the
 \* line of the type field counted from the top of the PARENT's docstring (ParsedTypeDocstring(.., lineno=field.lineno)): the
 \* offset of the ivar field is added to a line that is not relative to it          (deviation TypeOffsetAddedTwice)
 IvarOffset == 11
-SecondLine(l) == IF l.prob = "tfield" THEN DocstringLine(l) + IvarOffset + Offset(l) ELSE 0
-ExpectedCount(l) == IF l.prob = "tfield" THEN 2 ELSE 1
+\* (only under --process-types: without it the type is rendered once, by the attribute, from the cached tree)
+SecondLine(l) == IF l.prob = "tfield" /\ l.pt THEN DocstringLine(l) + IvarOffset + Offset(l)
+                 ELSE IF l.inl THEN InlineLine(l)            \* astbuilder.py visit_Expr: "Docstring ignored" at value.lineno
+                 \* consbad: the field is kept as a "newfield" + a field of that name: two "Unknown field" messages, at the field's line
+                 ELSE IF l.prob = "consbad" THEN FirstLine(l)
+                 ELSE 0
+ExpectedCount(l) == IF l.prob = "consbad" THEN 3 ELSE IF (l.prob = "tfield" /\ l.pt) \/ l.inl THEN 2 ELSE 1
 \* known finding (findings.d/C16.json  type-field-offset-added-twice)
 KF_TypeTwice(l, line) == l.prob = "tfield" /\ line = SecondLine(l) /\ line \notin Acceptable(l)
 \* The line does not depend on what was asked of the object before: the summary (made of copies of the first paragraph's
@@ -219,7 +250,12 @@ Histories == {"render", "summary;render"}
 \* docutils cuts its input with str.splitlines() (statemachine.string2lines): for the reST family every line after such a
 \* character is counted one further down than it is in the file                       (deviation DocutilsSplitsOnSep)
 SepShift(l) == IF l.sep # "none" /\ RstFamily(l) THEN 1 ELSE 0
-ReportedLine(l) == (IF DocstringLine(l) # 0 THEN DocstringLine(l) ELSE ObjLine(l)) + Offset(l) + CleanLead(l) + SepShift(l)
+\* inl: visit_Expr still calls attr.setDocstring(the ignored string): the attribute's docstring_lineno becomes the line of that
+\* string, while what is rendered (and located) is the body of the field                 (deviation InlineMovesOrigin)
+\* known finding (findings.d/C16.json  ivar-inline-docstring-line)
+KF_InlineOrigin(l, line) == l.inl /\ line = InlineLine(l) + Offset(l) /\ line \notin Acceptable(l)
+ReportedLine(l) == IF l.inl /\ InlineMovesOrigin THEN InlineLine(l) + Offset(l)
+                   ELSE (IF DocstringLine(l) # 0 THEN DocstringLine(l) ELSE ObjLine(l)) + Offset(l) + CleanLead(l) + SepShift(l)
 
 \* ------------------------------------------------------------------ invariants
 \* known finding (findings.d/C16.json  rst-markup-line-off-by-one)
@@ -230,6 +266,8 @@ KF_LeadingWs(l, line) == l.longws /\ line \notin Acceptable(l) /\ (line - 1) \in
 \* known finding (findings.d/C16.json  napoleon-line-beyond-docstring): the line counted in the rewritten text lies past the closing quotes
 \* (tight: the "Note:" section of the google template becomes ".. note::" + a blank line, one line more than the source)
 KF_Napoleon(l, line) == (l.typed \/ l.tight) /\ line > CloseLine(l) /\ line <= CloseLine(l) + 4
+\* known finding (findings.d/C16.json  consolidated-field-error-line)
+KF_ConsBad(l, line) == l.prob = "consbad" /\ line = FirstLine(l) + 1
 \* known finding (findings.d/C16.json  docutils-extra-line-boundaries)
 KF_DocutilsSep(l, line) == l.sep # "none" /\ RstFamily(l) /\ line \notin Acceptable(l) /\ (line - 1) \in Acceptable(l)
 DocstringLineRight == DocstringLine(lay) = TextLine0(lay)
@@ -237,7 +275,7 @@ DocstringLineRight == DocstringLine(lay) = TextLine0(lay)
 ImplAcceptable == Source = "enum" =>
                     (\/ ReportedLine(lay) \in Acceptable(lay) \/ KF_RstLineNotConverted(lay, ReportedLine(lay))
                      \/ KF_LeadingWs(lay, ReportedLine(lay)) \/ KF_Napoleon(lay, ReportedLine(lay))
-                     \/ KF_DocutilsSep(lay, ReportedLine(lay)))
+                     \/ KF_DocutilsSep(lay, ReportedLine(lay)) \/ KF_InlineOrigin(lay, ReportedLine(lay)) \/ KF_ConsBad(lay, ReportedLine(lay)))
 ImplSecondAcceptable == Source = "enum" => (SecondLine(lay) = 0 \/ SecondLine(lay) \in Acceptable(lay) \/ KF_TypeTwice(lay, SecondLine(lay)))
 ImplAcceptableStrict == Source = "enum" => ReportedLine(lay) \in Acceptable(lay)
 ReportedLineH(l, h) == ReportedLine(l)
@@ -256,13 +294,13 @@ ObsConforms   == Source = "file" => ObsAsModel
 ObsKnown == Len(ObsLines) = ExpectedCount(lay) /\ \A k \in 1..Len(ObsLines) :
                \/ ObsLines[k] \in Acceptable(lay)
                \/ KF_RstLineNotConverted(lay, ObsLines[k]) \/ KF_LeadingWs(lay, ObsLines[k]) \/ KF_Napoleon(lay, ObsLines[k])
-               \/ KF_DocutilsSep(lay, ObsLines[k]) \/ KF_TypeTwice(lay, ObsLines[k])
+               \/ KF_DocutilsSep(lay, ObsLines[k]) \/ KF_TypeTwice(lay, ObsLines[k]) \/ KF_InlineOrigin(lay, ObsLines[k]) \/ KF_ConsBad(lay, ObsLines[k])
 
 \* ------------------------------------------------------------------ emission
 Rec(l) == [lay |-> l, quote |-> QuoteLine(l), text0 |-> TextLine0(l), first |-> FirstLine(l), at |-> AtLine(l),
            close |-> CloseLine(l), lo |-> (IF l.fmt \in {"epytext", "restructuredtext"} THEN FirstLine(l) ELSE QuoteLine(l)),
            hi |-> (IF l.fmt \in {"epytext", "restructuredtext"} THEN AtLine(l) ELSE CloseLine(l)),
-           docline |-> DocstringLine(l), impl |-> ReportedLine(l), impl2 |-> SecondLine(l), doclen |-> DocLen(l)]
+           docline |-> DocstringLine(l), impl |-> ReportedLine(l), impl2 |-> SecondLine(l), count |-> ExpectedCount(l), also |-> InlineLine(l), doclen |-> DocLen(l)]
 Emit == IF Source = "enum" THEN PrintT(ToJson(Rec(lay)))
         ELSE PrintT(ToJson([id |-> Observed[obs].id,
                              one |-> Len(ObsLines) = ExpectedCount(lay),
